@@ -401,6 +401,24 @@ def run(ctx):
         ctx.proved("R16g", fl, "HeapNode.__lt__", lt.node, "node order", "(deleted and not other.deleted) or key < other.key")
     else:
         ctx.violation("R16g", fl, "HeapNode.__lt__", lt.node, "node order", f"HeapNode.__lt__ is `{norm(lt.node.body[-1])}`")
+    # the heap may assume of its keys what sorted() and heapq assume: a strict `<`.  `==` on keys is a different relation for the
+    # package's own items (edits order by bounds and are equal by identity), so every other comparison of nodes must be derived
+    # from `<`: with `self < other or self.key == other.key`, two distinct items of equal rank are neither <= nor >, the final
+    # scan of _consolidate leaves _min on a node that was just linked below its peer, and the next extraction drops the other roots
+    for name in ("__le__", "__gt__", "__ge__"):
+        g = m.method(hq, name)
+        if g is None or g.cls != hq:
+            continue
+        eqs = [c for c in walk_no_nested(g.node) if isinstance(c, ast.Compare) and any(isinstance(o_, (ast.Eq, ast.NotEq)) for o_ in c.ops)
+               and any(isinstance(x, ast.Attribute) and x.attr == "key" for x in ast.walk(c))]
+        if eqs:
+            ctx.violation("R16g", fl, f"HeapNode.{name}", eqs[0], f"{name} derived from <",
+                          f"HeapNode.{name} compares keys with `{norm(eqs[0], 40)}`: items that are ordered by `<` but equal only by identity "
+                          f"(every Edit; smallest()/largest() are called with edits) make two equal-rank nodes neither <= nor >, so "
+                          f"_consolidate can leave _min on a non-root and the next pop loses the remaining trees (push three equal-rank "
+                          f"items, pop twice: len 1, _root None)")
+        else:
+            ctx.proved("R16g", fl, f"HeapNode.{name}", g.node, f"{name} derived from <", "no equality test on keys")
     r16h(ctx)
     ctx.assume("heap order after arbitrary operation histories (the heart of the property) is a runtime-shape property of "
                "a pointer structure; no shape analysis in reach proves it - only the necessary conditions above are decided")
